@@ -310,6 +310,11 @@ class Ctx:
                 wv = self.declared_width(v)
                 if wv is not None and wv == self.norm(ctor[2][0]):
                     verified = True
+            if not verified and ctor[1] == ('attr', ('name', 'Signal'), 'like') and ctor[2]:
+                # Signal.like(model): as wide as the model; verified when model and value have the same declared width
+                wm, wv = self.declared_width(self.norm(ctor[2][0])), self.declared_width(v)
+                if wm is not None and wm == wv:
+                    verified = True
             if verified:
                 self.nctx.aliases[s] = v
             else:
@@ -1177,6 +1182,9 @@ def refuses(c, cond_texts, exc=None, env=None, loop_values=None):
     wants = []
     for t in ([cond_texts] if isinstance(cond_texts, str) else cond_texts):
         wants.append(c.eng.cond(c.norm(int_canon(c.parse(t, env)))))
+    if not hasattr(c, "_documented"):
+        c._documented = []
+    c._documented.append((wants, lid, ([cond_texts] if isinstance(cond_texts, str) else list(cond_texts))[0]))
     sites = []
     for conds, e, loops, ln, via in raise_sites(c):
         if lid is not None and lid not in loops and via is None:
@@ -1258,6 +1266,8 @@ def _arith_atoms(c, formula):
 
 def check_refusal(rep, rule, c, what, cond_texts, exc, env=None, loop_values=None):
     ok, detail = refuses(c, cond_texts, exc, env, loop_values)
+    if not ok:
+        c._refusal_gap = True                           # some documented refusal was not found as such: an unmatched raise may be it
     if ok is None:
         rep.unk(rule, c.fi.site, what, detail)
         return False
@@ -1316,3 +1326,68 @@ def merge_complementary(c, calls):
     merged = ('call', a[1], tuple(phi(u, v) for u, v in zip(t[2], f[2])), tuple((k, phi(u, v)) for (k, u), (_, v) in zip(t[3], f[3])))
     gen = tuple(fr for fr in ga if fr != x)
     return [(merged, gen, la)]
+
+
+def closed_refusals(rep, rule, c, what, extra=(), ignore_exc=("AssertionError",)):
+    """No *other* refusal: every `raise` of the function fires only under conditions that one of its documented refusals (the ones
+    checked with check_refusal on this context, plus `extra`) covers.  A raise whose path condition is not contained in their
+    disjunction refuses calls the documentation accepts -- the "accepted domain" of the property has shrunk.  Undecided when a
+    condition is outside what the decision engine evaluates."""
+    docs = [w for wants, lid, t in getattr(c, "_documented", []) for w in wants]
+    for t in extra:
+        docs.append(c.eng.cond(c.norm(int_canon(c.parse(t)))))
+    loops_doc = {lid for wants, lid, t in getattr(c, "_documented", []) if lid is not None}
+    site = c.fi.site
+    n = 0
+    clean = True
+    # parameters that the pinned signature does not have: a refusal that only concerns them cannot refuse an existing call
+    import json
+    import os
+    from ..core import canon as _canon
+    with open(os.path.join(os.path.dirname(_canon.__file__), "anchor_sigs.json")) as f_:
+        pinned = json.load(f_).get(c.fi.site)
+    new_params = set()
+    if pinned is not None:
+        new_params = {p_ for p_ in c.fi.params if p_ not in pinned["pos"] + pinned["kwonly"]}
+    for conds, e, loops, ln, via in raise_sites(c, depth=0):
+        if e in ignore_exc:
+            continue
+        n += 1
+        if new_params and conds:
+            last = c.norm(conds[-1][0])
+            names = {x[1] for x in ir.walk(last) if x[0] == 'name'}
+            if names & new_params and not (names & (set(c.fi.params) - new_params)):
+                continue                                # validates a parameter that did not exist before
+        try:
+            f = _formula(c, conds)
+            covered = None
+            if docs:
+                try:
+                    covered = dl.implies(c.eng, f, dl.f_or(*docs))[0]
+                except Undecided:
+                    # compare with each documented condition on its own
+                    covered = False
+                    for w in docs:
+                        try:
+                            if dl.implies(c.eng, f, w)[0]:
+                                covered = True
+                                break
+                        except Undecided:
+                            covered = None
+            else:
+                covered = dl.equivalent(c.eng, f, dl.F)[0]
+        except Undecided:
+            covered = None
+        if covered:
+            continue
+        clean = False
+        shown = " and ".join(("" if p_ else "not ") + "(" + ir.show(cd)[:70] + ")" for cd, p_ in conds) or "always"
+        if covered is None or (loops and set(loops) & loops_doc) or getattr(c, "_refusal_gap", False):
+            rep.unk(rule, site, what, f"`raise {e}` at line {ln} under {shown}: whether a documented refusal covers it is not decided")
+        else:
+            rep.bad(rule, site, what, f"`raise {e}` at line {ln} fires under {shown}, which no documented refusal of this call covers: "
+                    "inputs the documentation accepts are refused", line=ln)
+    if clean:
+        rep.ok(rule, site, what, f"{n} raise site(s), each inside a documented refusal", nontrivial=n > 0)
+    return clean
+
